@@ -7,6 +7,11 @@ props = [json.loads(l) for l in open(os.path.join(V, "properties.jsonl"))]
 
 # property id -> (category, technique, level text, level note) ; absent = not claimed (reason in NOT_APPLICABLE)
 CLAIMS = {
+ "C12": ("exploration",
+         "runtime monitoring: exhaustive enumeration of import-set terms observed through eval_import (names + values of a fresh environment) against the import-set algebra, replicated across threads/processes",
+         "every admissible import-set term to nesting depth 2 (depth 3 sampled) over a 4-export library is evaluated by the real interpreter through the eval_import API into a fresh environment whose exact name set and values are read back, several times in different threads/processes (different hash seeds), for a native and a Scheme-source library; a sample is also run as (import ...) text and as two-set declarations. The oracle is a 15-line map algebra.",
+         "admissible terms only; identifier lists are written in arbitrary order on purpose"),
+
  "C08": ("fault_enumeration",
          "runtime monitoring: fault injection (8 fault kinds x 5 calling contexts x position/depth) with effect probes before/after, judged by the reference evaluator",
          "one faulting operation of each of 8 kinds is injected in each of 5 calling contexts (direct, tail at trampoline iteration 1/2/k, apply, inside map/for-each/fold, inside a derived form in a procedure body) at a random position and depth of an otherwise valid program, between effects and followed by forms reading them back; error kind, absence of an invented value, surviving effects and later forms are judged by the reference evaluator. Every one of the 40 cells must be observed or the run is inconclusive.",
